@@ -332,9 +332,12 @@ pub fn exec(func: &str, a: &mut Args) -> String {
         "seq2t" => seq2t(a),
         "comp3" => comp3(a, false),
         "tm3" => comp3(a, true),
-        _ => "nofn".into(),
+        _ => ext::exec(func, a),
     }
 }
+
+#[path = "c14_ext.rs"]
+mod ext;
 
 // ---------------------------------------------------------------- generators
 /// small rotation quaternion about a random axis, angle in radians
@@ -964,5 +967,6 @@ pub fn gen(r: &mut Rng, thorough: bool) -> Vec<(String, String)> {
         v.push(gen_seq2_cc(r, it % 2 == 0, 20));
         v.push(gen_hf2(r, it % 4 == 0, 16));
     }
+    v.extend(ext::gen(r, thorough));
     v
 }
